@@ -106,7 +106,7 @@ def check_system(s: Any, proj: Dict[str, Any], meta: Dict[str, Any], order_desc:
             by_id.setdefault(d, []).append(k)
     target: Dict[str, Any] = {}
     for name, d in meta['defs'].items():
-        want = rexproj.new_location(proj, name, d['mod'])
+        want = d.get('want') or rexproj.new_location(proj, name, d['mod'])
         keys = by_id.get('ID:%d' % d['id'], [])
         exported = rexproj.exporter_of(proj, name) is not None
         form = (rexproj.exporter_of(proj, name) or {}).get('form', '-')
@@ -204,7 +204,7 @@ def check_project(proj: Dict[str, Any], order_pick: Optional[int] = None) -> Tup
                 out.append((sig, msg))
     out = [(sig, '%s\n%s\n(%d of %d orders fail this way)' % (desc_files, msg, failing_orders.get(sig, 1), len(orders))) for sig, msg in out]
     info['reexports'] = len(proj['exports'])
-    info['outdated_consumers'] = sum(1 for c in meta['checks'] if rexproj.exporter_of(proj, c['obj']) and c['how'] in ('from-impl', 'both', 'modalias', 'pkgalias', 'xref-old'))
+    info['outdated_consumers'] = sum(1 for c in meta['checks'] if rexproj.exporter_of(proj, c['obj']) and c['how'] in ('from-impl', 'both', 'modalias', 'pkgalias', 'dotted', 'xref-old'))
     return out, info
 
 
